@@ -165,7 +165,11 @@ func (c18) Gen(r *Rng, tier string, run int) *Trace {
 		case 14:
 			g.emit(Op{Obj: s0, M: "Push", Args: []Val{g.plain()}}, false)
 		case 15:
-			g.emit(Op{Obj: s0, M: "Pop"}, false)
+			if r.Bool(0.3) {
+				g.emit(Op{Obj: s0, M: "Reset"}, false)
+			} else {
+				g.emit(Op{Obj: s0, M: "Pop"}, false)
+			}
 		}
 	}
 	return g.tr
